@@ -73,6 +73,7 @@ class Harness:
         self.shrink_exhausted = False
         self.abort = False
         self.harness_error = None
+        self.first_cases = []
         signal.signal(signal.SIGALRM, self._on_alarm)
 
     @staticmethod
@@ -105,6 +106,8 @@ class Harness:
         if self.abort or self.shrink_exhausted:
             return
         self.evaluations += 1
+        if os.environ.get("VERIF_TRACE"):
+            self.first_cases.append(case_hash(case))
         try:
             ctx = self.run_check(case)
         except Inconclusive:
@@ -159,6 +162,7 @@ class Harness:
             "excluded_known": dict(self.excluded_known), "inconclusive": self.inconclusive,
             "inconclusive_samples": self.inconclusive_samples, "samples": self.samples,
             "failure": self.best_failure, "harness_error": self.harness_error,
+            "first_cases": self.first_cases,
         }
 
 
@@ -390,6 +394,9 @@ def main(argv=None):
         violations.append((path, best["problems"]))
 
     wall = time.time() - t0
+    if os.environ.get("VERIF_TRACE"):
+        with open(os.environ["VERIF_TRACE"], "w") as f:
+            json.dump({str(i): r.get("first_cases") for i, r in enumerate(results)}, f)
     if not a.no_evidence:
         evidence = {
             "property_id": prop_id, "tier": a.tier, "seed": seed, "level": "exploration",
